@@ -47,7 +47,7 @@ for p in props:
 man = {
  "version": 1, "setup_cmd": "./setup.sh",
  "hooks": {"guard": "neumann_verif", "enable": "cargo feature neumann_verif on tensor_chain, relational_engine, graph_engine, tensor_blob (read-only accessors / wrappers used by the native replay driver /verif/replay and the Kani crate /verif/kani; the MIR dump needs no hooks)",
-           "baseline_off_cmd": "cd /repo && CARGO_NET_OFFLINE=true cargo nextest run --workspace --no-fail-fast --test-threads 8 --offline", "source_commits": ["80aaab17", "4d5c4419", "8f6898ea", "2dbd5f78", "a50099c1", "2ded86bb", "af699de5", "6914ab45"], "add_only": True},
+           "baseline_off_cmd": "cd /repo && CARGO_NET_OFFLINE=true cargo nextest run --workspace --no-fail-fast --test-threads 8 --offline", "source_commits": ["80aaab17", "4d5c4419", "8f6898ea", "2dbd5f78", "a50099c1", "2ded86bb", "af699de5", "6914ab45", "96dddefb"], "add_only": True},
  "engines": [{"name": "mirsym", "path": "/verif/mirsym", "serves_properties": sorted(CLAIMS),
               "kind_free_text": "symbolic execution of the MIR rustc prints for the current tree; z3 decides every path obligation; native replay driver (/verif/replay) for translator validation and counterexample confirmation"},
              {"name": "kani", "path": "/verif/kani", "serves_properties": ["C04"], "kind_free_text": "Kani 0.68 / CBMC harnesses over the compiled relational_engine SIMD kernels (feature neumann_verif), unwinding assertions and cover checks on"}],
